@@ -27,8 +27,9 @@ theorem keep_false {es : List Entry} {i : Nat} {e : Entry} (he : es[i]? = some e
   simp [keep, he] at hk; exact hk
 
 theorem InvA.build {s : State} (hA : InvA s) (hb : s.built = []) (idx limit fuel : Nat) (hp : List Nat) (bst : BuildSt)
+    (bq : List Nat) (sd : Option Nat)
     (h : buildLoop s.entries limit fuel s.heap { idAlloc := s.idAlloc, count := 0, items := [] } = (hp, bst)) :
-    InvA { s with index := idx, heap := hp, idAlloc := bst.idAlloc, built := bst.items.reverse,
+    InvA { s with index := idx, heap := hp, idAlloc := bst.idAlloc, built := bst.items.reverse, breqs := bq, sending := sd,
                   allocLog := bst.items.map (fun it => (it.id, it.h)) ++ s.allocLog } := by
   obtain ⟨tk, hperm, hrel⟩ := buildLoop_rel _ _ _ _ _ _ _ h
   have hhs : bst.items.reverse.map (·.h) = tk.filter (keep s.entries) := by
@@ -40,7 +41,8 @@ theorem InvA.build {s : State} (hA : InvA s) (hb : s.built = []) (idx limit fuel
     intro it hit
     rcases hrel.mem it hit with h | h
     · simp at h
-    · exact h
+    · obtain ⟨a, b, c, e, he, h1, h2, _⟩ := h
+      exact ⟨a, b, c, e, he, h1, h2⟩
   have htk : ∀ i ∈ tk, i ∈ locs s := by
     intro i hi
     have : i ∈ s.heap := hperm.mem_iff.mp (List.mem_append.mpr (Or.inl hi))
@@ -185,91 +187,130 @@ theorem sendAll_built (s : State) (cid : Nat) : ∀ k, (sendAll s cid k).built =
     intro it _
     by_cases h1 : it.fwd = k + 1 <;> by_cases h2 : it.fwd > k <;> simp [h1, h2] <;> omega
 
-/-- accounting invariant between steps: InvA and the builder's groups are empty -/
-def InvF (s : State) : Prop := InvA s ∧ s.built = []
+/-- accounting invariant between steps: InvA, and the builder's groups are empty unless getClientAndSend is between
+    buildWithLimit and its sends -/
+def InvF (s : State) : Prop := InvA s ∧ (s.sending = none → s.built = [])
 
-theorem InvF.flush {s : State} (hF : InvF s) : InvF (flush s) := by
+theorem InvF.flushBegin {s : State} (hF : InvF s) : InvF (flushBegin s) := by
   obtain ⟨hA, hb⟩ := hF
-  unfold CGV.BatchMux.flush
-  simp only
-  generalize chooseClient s.clients _ s.clients.length s.index = pk
-  obtain ⟨idx, pick⟩ := pk
-  simp only
-  cases pick with
-  | none =>
+  unfold CGV.BatchMux.flushBegin
+  split
+  · exact ⟨hA, hb⟩
+  · rename_i hsd
+    have hnone : s.sending = none := by
+      cases h : s.sending with
+      | none => rfl
+      | some x => simp [h] at hsd
+    have hb0 := hb hnone
     simp only
-    split
-    · exact ⟨hA.noconn idx, hb⟩
-    · exact ⟨hA.same rfl (Perm.refl _) rfl rfl rfl rfl rfl, hb⟩
-  | some cid =>
+    generalize chooseClient s.clients _ s.clients.length s.index = pk
+    obtain ⟨idx, pick⟩ := pk
     simp only
-    generalize hbl : buildLoop s.entries _ (s.heap.length + 1) s.heap { idAlloc := s.idAlloc, count := 0, items := [] } = r
-    obtain ⟨hp, bst⟩ := r
-    simp only
-    have h1 := hA.build hb idx _ _ hp bst hbl
-    refine ⟨h1.sendAll cid s.nfwd, ?_⟩
+    cases pick with
+    | none =>
+      simp only
+      split
+      · exact ⟨hA.noconn idx, fun _ => hb0⟩
+      · exact ⟨hA.same rfl (Perm.refl _) rfl rfl rfl rfl rfl, fun _ => hb0⟩
+    | some cid =>
+      simp only
+      generalize hbl : buildLoop s.entries _ (s.heap.length + 1) s.heap { idAlloc := s.idAlloc, count := 0, items := [] } = r
+      obtain ⟨hp, bst⟩ := r
+      simp only
+      exact ⟨hA.build hb0 idx _ _ hp bst _ _ hbl, fun h => by simp at h⟩
+
+theorem InvF.flushEnd {s : State} (hF : InvF s) : InvF (flushEnd s) := by
+  obtain ⟨hA, hb⟩ := hF
+  unfold CGV.BatchMux.flushEnd
+  split
+  · exact ⟨hA, hb⟩
+  · rename_i cid _
+    have h1 := hA.sendAll cid s.nfwd
+    refine ⟨h1.same rfl (Perm.refl _) rfl rfl rfl rfl rfl, fun _ => ?_⟩
+    show (sendAll s cid s.nfwd).built = []
     rw [sendAll_built]
     apply List.filter_eq_nil_iff.mpr
     intro it hit
-    have := h1.bfwd it hit
+    have := hA.bfwd it hit
     simp; exact this
 
-theorem InvF.step {s : State} (hF : InvF s) (op : Op) : InvF (step s op) := by
-  obtain ⟨hA, hb⟩ := hF
+theorem InvF.flush {s : State} (hF : InvF s) : InvF (flush s) := hF.flushBegin.flushEnd
+
+def Frame (s s' : State) : Prop := s'.built = s.built ∧ s'.sending = s.sending ∧ s'.breqs = s.breqs
+
+theorem Frame.refl (s : State) : Frame s s := ⟨rfl, rfl, rfl⟩
+theorem Frame.trans {a b c : State} (h1 : Frame a b) (h2 : Frame b c) : Frame a c :=
+  ⟨h2.1.trans h1.1, h2.2.1.trans h1.2.1, h2.2.2.trans h1.2.2⟩
+
+theorem recv1_frame (cid : Nat) (s : State) (r : Nat × Nat) : Frame s (recv1 cid s r) := by
+  unfold recv1; simp only; split <;> exact ⟨rfl, rfl, rfl⟩
+
+theorem recvFold_frame (cid : Nat) : ∀ (rs : List (Nat × Nat)) (s : State), Frame s (rs.foldl (recv1 cid) s)
+  | [], s => Frame.refl s
+  | r :: rest, s => (recv1_frame cid s r).trans (recvFold_frame cid rest _)
+
+/-- every step other than the two halves of getClientAndSend leaves the builder's groups and the `sending` mark alone -/
+theorem step_frame (s : State) (op : Op) (h1 : op ≠ .flush) (h2 : op ≠ .flushBegin) (h3 : op ≠ .flushEnd) :
+    Frame s (step s op) := by
   cases op with
+  | flush => exact absurd rfl h1
+  | flushBegin => exact absurd rfl h2
+  | flushEnd => exact absurd rfl h3
   | submit p pri fwd =>
-    refine ⟨hA.submit p pri fwd, ?_⟩
-    show (CGV.BatchMux.submit s p pri fwd).built = []
-    unfold CGV.BatchMux.submit; simp only; split <;> exact hb
+    show Frame s (CGV.BatchMux.submit s p pri fwd)
+    unfold CGV.BatchMux.submit; simp only; split <;> exact ⟨rfl, rfl, rfl⟩
   | fetch max =>
-    refine ⟨hA.fetch max, ?_⟩
-    show (CGV.BatchMux.fetch s max).built = []
-    unfold CGV.BatchMux.fetch; split
-    · exact hb
-    · exact hb
-  | breset => exact ⟨hA.breset, hb⟩
-  | flush => exact InvF.flush ⟨hA, hb⟩
+    show Frame s (CGV.BatchMux.fetch s max)
+    unfold CGV.BatchMux.fetch; split <;> exact ⟨rfl, rfl, rfl⟩
   | recv cid fwd rs =>
-    refine ⟨hA.recv cid fwd rs, ?_⟩
-    show (CGV.BatchMux.recv s cid fwd rs).built = []
+    show Frame s (CGV.BatchMux.recv s cid fwd rs)
     unfold CGV.BatchMux.recv
     split
-    · exact hb
+    · exact Frame.refl s
     · split
-      · exact hb
-      · have : ∀ (rs : List (Nat × Nat)) (s : State), s.built = [] → (rs.foldl (recv1 cid) s).built = [] := by
-          intro rs
-          induction rs with
-          | nil => intro s h; exact h
-          | cons r rest ih =>
-            intro s h
-            apply ih
-            unfold recv1; simp only; split <;> exact h
-        exact this rs s hb
+      · exact Frame.refl s
+      · exact recvFold_frame cid rs s
   | kill cid fwd =>
-    refine ⟨hA.kill cid fwd, ?_⟩
-    show (CGV.BatchMux.kill s cid fwd).built = []
+    show Frame s (CGV.BatchMux.kill s cid fwd)
     unfold CGV.BatchMux.kill
     split
-    · exact hb
+    · exact Frame.refl s
     · split
-      · exact hb
-      · split <;> exact hb
-  | cancel h =>
-    exact ⟨hA.updAt_benign h _ (fun e => Benign.abandon e _) rfl rfl rfl rfl rfl rfl rfl, hb⟩
-  | timeout h =>
-    exact ⟨hA.updAt_benign h _ (fun e => Benign.abandon e _) rfl rfl rfl rfl rfl rfl rfl, hb⟩
-  | wake h =>
-    exact ⟨hA.updAt_benign h _ (fun e => Benign.wake e) rfl rfl rfl rfl rfl rfl rfl, hb⟩
-  | close => exact ⟨hA.closeAll, hb⟩
-  | sendfail cid fwd b => exact ⟨hA.same rfl (Perm.refl _) rfl rfl rfl rfl rfl, hb⟩
-  | lockrec cid b => exact ⟨hA.same rfl (Perm.refl _) rfl rfl rfl rfl rfl, hb⟩
-  | setlimit cid l => exact ⟨hA.same rfl (Perm.refl _) rfl rfl rfl rfl rfl, hb⟩
-  | cfgcancel b => exact ⟨hA.same rfl (Perm.refl _) rfl rfl rfl rfl rfl, hb⟩
-  | panicRecover => exact ⟨hA, hb⟩
+      · exact Frame.refl s
+      · split <;> exact ⟨rfl, rfl, rfl⟩
+  | _ => exact ⟨rfl, rfl, rfl⟩
+
+theorem InvF.step {s : State} (hF : InvF s) (op : Op) : InvF (step s op) := by
+  by_cases h1 : op = .flush
+  · subst h1; exact hF.flush
+  by_cases h2 : op = .flushBegin
+  · subst h2; exact hF.flushBegin
+  by_cases h3 : op = .flushEnd
+  · subst h3; exact hF.flushEnd
+  obtain ⟨hA, hb⟩ := hF
+  obtain ⟨fb, fs, _⟩ := step_frame s op h1 h2 h3
+  refine ⟨?_, fun h => by rw [fb]; exact hb (fs ▸ h)⟩
+  cases op with
+  | submit p pri fwd => exact hA.submit p pri fwd
+  | fetch max => exact hA.fetch max
+  | breset => exact hA.breset
+  | flush => exact absurd rfl h1
+  | flushBegin => exact absurd rfl h2
+  | flushEnd => exact absurd rfl h3
+  | recv cid fwd rs => exact hA.recv cid fwd rs
+  | kill cid fwd => exact hA.kill cid fwd
+  | cancel h => exact hA.updAt_benign h _ (fun e => Benign.abandon e _) rfl rfl rfl rfl rfl rfl rfl
+  | timeout h => exact hA.updAt_benign h _ (fun e => Benign.abandon e _) rfl rfl rfl rfl rfl rfl rfl
+  | wake h => exact hA.updAt_benign h _ (fun e => Benign.wake e) rfl rfl rfl rfl rfl rfl rfl
+  | close => exact hA.closeAll
+  | sendfail cid fwd b => exact hA.same rfl (Perm.refl _) rfl rfl rfl rfl rfl
+  | lockrec cid b => exact hA.same rfl (Perm.refl _) rfl rfl rfl rfl rfl
+  | setlimit cid l => exact hA.same rfl (Perm.refl _) rfl rfl rfl rfl rfl
+  | cfgcancel b => exact hA.same rfl (Perm.refl _) rfl rfl rfl rfl rfl
+  | panicRecover => exact hA
 
 theorem InvF.init (n limit nfwd : Nat) : InvF (init n limit nfwd) := by
-  refine ⟨⟨?_, ?_, ?_, ?_, ?_, ?_, ?_, ?_, ?_⟩, rfl⟩ <;> simp [CGV.BatchMux.init, ids, locs]
+  refine ⟨⟨?_, ?_, ?_, ?_, ?_, ?_, ?_, ?_, ?_⟩, fun _ => rfl⟩ <;> simp [CGV.BatchMux.init, ids, locs]
 
 theorem InvF.run {s : State} (hF : InvF s) : ∀ ops : List Op, InvF (run s ops) := by
   intro ops
